@@ -53,9 +53,31 @@ type c09job struct {
 	Files  map[string]string `json:"files,omitempty"`   // source files visible to the interpreter (GOPATH "." on a MapFS)
 	K      int               `json:"k"`                 // park before operation k (0 = cancel when nothing moves any more)
 	Procs  int               `json:"procs,omitempty"`   // GOMAXPROCS for this job (0 = leave)
+	Entry  string            `json:"entry,omitempty"`   // "" = EvalWithContext | path = EvalPathWithContext (source as a file) | exec = Compile + ExecuteWithContext
+	Hold   bool              `json:"hold,omitempty"`    // callers of host.Wait stay inside that native call until EvalWithContext has returned
 	Single bool              `json:"single,omitempty"`  // one interpreted goroutine: it cannot finish while it is parked
 	Hist   []c10ev           `json:"hist,omitempty"`
 	Warm   bool              `json:"warm,omitempty"` // C10: every definition is executed once before the history
+}
+
+const c09entryPath = "src/entry/main.go"
+
+// c09enter runs src under ctx through one of the three cancellable entry points.
+func c09enter(ip *interp.Interpreter, ctx context.Context, entry, src string) error {
+	switch entry {
+	case "exec":
+		prog, err := ip.Compile(src)
+		if err != nil {
+			return err
+		}
+		_, err = ip.ExecuteWithContext(ctx, prog)
+		return err
+	case "path":
+		_, err := ip.EvalPathWithContext(ctx, c09entryPath)
+		return err
+	}
+	_, err := ip.EvalWithContext(ctx, src)
+	return err
 }
 
 // one evaluation on the interpreter under test
@@ -448,7 +470,7 @@ func c09ids() map[uint64]bool {
 // ---------------------------------------------------------------- worker
 
 const (
-	c09ReturnBound = 20 * time.Second // EvalWithContext must return the context's error within this (never close on a loaded machine)
+	c09ReturnBound = 10 * time.Second // EvalWithContext must return the context's error within this (never close on a loaded machine)
 	c09SlowNote    = 5 * time.Second  // latencies above this are remarked upon
 	c09ExitBound   = 20 * time.Second
 	c09StallQuiet  = 60 * time.Millisecond
@@ -471,7 +493,23 @@ func c09runJob(j c09job) (res c09res) {
 		defer runtime.GOMAXPROCS(runtime.GOMAXPROCS(j.Procs))
 	}
 	before := c09ids()
-	ip := c09newInterp(j.Files)
+	files := j.Files
+	if j.Entry == "path" {
+		files = map[string]string{c09entryPath: j.Src}
+		for k, v := range j.Files {
+			files[k] = v
+		}
+	}
+	ip := c09newInterp(files)
+	if j.Hold {
+		hold := make(chan struct{})
+		c09hold.Store(&hold)
+		defer func() {
+			if c09hold.Swap(nil) != nil {
+				close(hold)
+			}
+		}()
+	}
 	for _, p := range j.Pre {
 		if err := c09doStep(ip, p); err != nil {
 			res.Err = "pre: " + err.Error()
@@ -495,7 +533,7 @@ func c09runJob(j c09job) (res c09res) {
 	}
 	errc := make(chan evalRes, 1)
 	go func() {
-		_, err := ip.EvalWithContext(ctx, j.Src)
+		err := c09enter(ip, ctx, j.Entry, j.Src)
 		errc <- evalRes{err, time.Now()}
 	}()
 	var er evalRes
@@ -552,7 +590,8 @@ func c09runJob(j c09job) (res c09res) {
 	case er = <-errc:
 		res.LatencyMs = float64(er.at.Sub(t0).Microseconds()) / 1000
 	case <-time.After(c09ReturnBound):
-		res.RetErr = "EvalWithContext did not return within " + c09ReturnBound.String()
+		res.RetErr = "the call did not return within " + c09ReturnBound.String() + " after the cancellation"
+		res.Runaway = true // its goroutine is stuck in this process: the worker is replaced, and the slice gives up after a few
 	}
 	if er.err != nil {
 		res.Ret = errors.Is(er.err, context.Canceled)
@@ -580,6 +619,9 @@ func c09runJob(j c09job) (res c09res) {
 	r.mu.Lock()
 	r.returned = true
 	r.mu.Unlock()
+	if h := c09hold.Swap(nil); h != nil {
+		close(*h) // the native calls held back may return now
+	}
 	if j.Kind == "expired" {
 		// the evaluation goroutine is either parked before its first operation or will never execute one
 		c09parkedOrGone(r, before, c09ExitBound)
@@ -836,6 +878,7 @@ type c09tmpl struct {
 	ParkIn   string
 	Files    map[string]string
 	KMin     int                 // first cancellation point (default 1)
+	Hold     bool                // host.Wait holds its callers until the cancelled call has returned
 	Others   bool                // observe the goroutines other than the evaluation's own one
 	Threads  int                 // conc: upper bound of interpreted goroutines
 	CoqF     string              // single: function table
@@ -1247,6 +1290,56 @@ func main() {
 }
 `)
 
+	// ---- the main goroutine sits in native blocking code when the cancel comes (WaitGroup.Wait on workers that
+	// will never call Done, a second Mutex.Lock, a host function that does not return yet): the call must return
+	// the context error all the same (it may not wait for the interpreted goroutines), the other goroutines
+	// stop, the main goroutine stays in its native call (not counted) or leaves it later and stops
+	for _, stall := range []bool{true, false} {
+		kmax, suffix := 0, "-standstill"
+		if !stall {
+			kmax, suffix = 30, ""
+		}
+		tk := "func ticker() {\n\tselect {}\n}\n\n"
+		if !stall {
+			tk = "func ticker() {\n\tfor {\n\t\thost.Tick(9)\n\t}\n}\n\n"
+		}
+		conc("native-main-waitgroup"+suffix, 5, kmax, true, tk+`func worker(ch chan int, wg *sync.WaitGroup) {
+	<-ch
+	wg.Done()
+}
+
+func main() {
+	ch := make(chan int)
+	var wg sync.WaitGroup
+	for i := 0; i < 3; i++ {
+		wg.Add(1)
+		go worker(ch, &wg)
+	}
+	go ticker()
+	host.Tick(1)
+	wg.Wait()
+	host.Tick(2)
+}
+`)
+		conc("native-main-mutex"+suffix, 2, kmax, true, tk+`func main() {
+	var mu sync.Mutex
+	go ticker()
+	mu.Lock()
+	host.Tick(1)
+	mu.Lock()
+	host.Tick(2)
+}
+`)
+		conc("native-main-hostcall"+suffix, 2, kmax, true, tk+`func main() {
+	go ticker()
+	host.Tick(1)
+	host.Wait()
+	host.Tick(2)
+}
+`)
+		ts[len(ts)-1].Hold = true
+	}
+
 	// ---- the host goes on using the interpreter after the cancel, BEFORE the goroutines of the cancelled run
 	// are released: 1..3 further evaluations (plain Eval, EvalWithContext, import of a source package), with the
 	// goroutines parked before an operation or inside a native call (host.Tick). The programs are loaded REPL
@@ -1380,17 +1473,36 @@ func runC09(args []string) error {
 	}
 
 	type meta struct {
-		t  *c09tmpl
-		k  int
-		pr int
+		t   *c09tmpl
+		k   int
+		pr  int
+		en  string
+		gen bool // compiled before the first *WithContext call, with channel operations in function literals
 	}
 	var jobs []c09job
 	metas := map[int]meta{}
 	id := 0
 	add := func(t *c09tmpl, k, procs int) {
 		id++
-		jobs = append(jobs, c09job{ID: id, Kind: t.Kind, Src: t.Src, Pre: t.Pre, Posts: t.Posts, ParkIn: t.ParkIn, Files: t.Files, K: k, Procs: procs, Single: t.Class == "single"})
-		metas[id] = meta{t, k, procs}
+		// the entry point: every job draws one of those its source allows (a file needs a package clause)
+		entries := []string{"", "exec"}
+		if strings.HasPrefix(t.Src, "package main") {
+			entries = []string{"", "exec", "path"}
+		}
+		entry := entries[r.intn(len(entries))]
+		pre, gen := t.Pre, false
+		if entry == "exec" && t.Class == "conc" && len(t.Pre) == 0 && strings.Contains(t.Src, "func(") && strings.Contains(t.Src, "<-") {
+			// Compile generates the bodies of function literals at once: on an interpreter that has not seen a
+			// *WithContext call yet their plain channel operations are generated non-cancellable (region
+			// nocancel-gen); after a first EvalWithContext of anything they are main stream
+			if r.bool() {
+				pre = []c09step{{"evalctx", "1+1"}}
+			} else {
+				gen = true
+			}
+		}
+		jobs = append(jobs, c09job{ID: id, Kind: t.Kind, Src: t.Src, Pre: pre, Posts: t.Posts, ParkIn: t.ParkIn, Files: t.Files, K: k, Procs: procs, Single: t.Class == "single", Entry: entry, Hold: t.Hold})
+		metas[id] = meta{t, k, procs, entry, gen}
 	}
 	procChoices := []int{0, 0, 1, 2, 4}
 	for ti := range tmpls {
@@ -1462,7 +1574,9 @@ func runC09(args []string) error {
 		res := results[i]
 		m := metas[i]
 		t := m.t
-		in := map[string]any{"template": t.Name, "k": m.k, "gomaxprocs": m.pr, "source": t.Src}
+		in := map[string]any{"template": t.Name, "k": m.k, "gomaxprocs": m.pr, "source": t.Src,
+			"entry_point": map[string]string{"": "EvalWithContext", "exec": "Compile + ExecuteWithContext", "path": "EvalPathWithContext"}[m.en]}
+		sm.count("entry:" + in["entry_point"].(string))
 		if len(t.Pre) > 0 {
 			in["earlier_evaluations"] = t.Pre
 		}
@@ -1528,6 +1642,8 @@ func runC09(args []string) error {
 		var scen, ftab string
 		nthreads := 1
 		switch {
+		case t.Class == "conc" && m.gen:
+			scen, ftab, nthreads = fmt.Sprintf("(SConcGen %d)", t.Threads), "[]", t.Threads
 		case t.Class == "conc":
 			scen, ftab, nthreads = fmt.Sprintf("(SConc %d)", t.Threads), "[]", t.Threads
 		default:
@@ -1555,9 +1671,13 @@ func runC09(args []string) error {
 			sm.Samples = append(sm.Samples, map[string]any{"input": in, "observed": implView})
 		}
 		if !refOK {
-			sm.HarnessViolations = append(sm.HarnessViolations, refMismatch{ID: i, Region: t.Region, Input: in, Impl: implView,
+			region := t.Region
+			if m.gen {
+				region = "nocancel-gen"
+			}
+			sm.HarnessViolations = append(sm.HarnessViolations, refMismatch{ID: i, Region: region, Input: in, Impl: implView,
 				Ref: "EvalWithContext returns the context error; every goroutine executes at most the operation in flight, causes at most one more tick, and exits"})
-			sm.count("contract-violated:" + t.Region)
+			sm.count("contract-violated:" + region)
 		}
 	}
 	sm.Notes = append(sm.Notes, fmt.Sprintf("max latency of EvalWithContext after cancel %.1f ms; max time for goroutines to exit after release %.1f ms (observed, not part of the verdict below %s)", maxLat, maxExit, c09SlowNote))
